@@ -419,8 +419,22 @@ func c01NullGuard(c *Ctx, a *avlAnchors) {
 								continue
 							}
 							in := li.Init[phi]
-							if in == nil || !(in.Op == "param" || in.Op == "alloc") {
+							if in == nil {
 								return false
+							}
+							if !(in.Op == "param" || in.Op == "alloc") {
+								// the value the loop starts from was tested non-nil on the way in (if root == nil { return })
+								initOK := false
+								kin := nodeKey(in)
+								for _, cd := range p.Conds {
+									r := cd.Rel()
+									if r.B != nil && r.Op == "!=" && ((r.B.IsNil() && nodeKey(r.A) == kin) || (r.A.IsNil() && nodeKey(r.B) == kin)) {
+										initOK = true
+									}
+								}
+								if !initOK {
+									return false
+								}
 							}
 							for _, q := range li.Back {
 								nx := q.Next[phi]
